@@ -86,6 +86,19 @@ def call(eng, e, st):
             return Val.of_none()
         base = eng.ev(f.value, st)
         args, kw = eval_args(eng, e, st)
+        if isinstance(f.value, ast.Name) and f.value.id == "dict" and meth in ("__setitem__", "__getitem__", "__len__", "__iter__", "__delitem__"):
+            # dict.__setitem__(obj, key, value) on a dict subclass: plain store / load of the key
+            obj = args[0] if args else None
+            if obj is not None and obj.ref is not None and len(args) >= 2 and args[1].py is not None and args[1].py[0] == "str":
+                path = obj.ref + "[" + repr(args[1].py[1]) + "]"
+                if meth == "__setitem__":
+                    st.env[path] = args[2]
+                    return Val.of_none()
+                if meth == "__getitem__":
+                    return eng.lookup(st, path)
+            if obj is not None and obj.ref is not None and meth in ("__setitem__", "__delitem__"):
+                eng.havoc_prefix(st, obj.ref)
+            return Val.fresh("dictop")
         if base.py is not None:
             k = base.py[0]
             if k == "module":
@@ -328,6 +341,9 @@ def deepcopy(eng, v, st):
         return Val.of_tup([deepcopy(eng, x, st) for x in v.tup])
     r = Val.fresh("copy")
     r.none = v.none
+    if v.poly is not None:
+        # equal value, fresh identity: the copy shares the (lazily created) value facets of the original
+        r.poly = v.poly
     if v.py is not None and v.py[0] == "instance":
         r.py = v.py
     # shallow model of the copied object's tracked children: equal values, fresh identity
@@ -985,7 +1001,19 @@ def sf_ptat(eng, e, st):
     return Val.of_num(N(z3.Select(p, eng.as_int(eng.ev(e.args[1], st)))))
 
 
+def sf_upd(eng, e, st):
+    """upd(a, i, v): 1-D array a with a[i] := v, grown to length max(len, i+1) (ghost arrays)."""
+    a = eng.ev(e.args[0], st).get_arr()
+    i = eng.as_int(eng.ev(e.args[1], st))
+    v = eng.ev(e.args[2], st).get_num()
+    if a is None or a.ndim != 1:
+        raise Undecided("upd() needs a 1-D array")
+    n = z3.simplify(z3.If(i + 1 > a.shape[0], i + 1, a.shape[0]))
+    return Val.of_arr(Arr(1, (n,), lambda k: n_ite(k == i, v, a.elem(k)), "num"))
+
+
 SPECFUNCS = {
+    "upd": sf_upd,
     "row": sf_row, "pt": sf_pt, "invt": _ptfun("InvT"), "fwdt": _ptfun("FwdT"), "cval": _ptfun("Cval", False), "feasx": sf_feasx,
     "pteq": sf_pteq, "ptat": sf_ptat,
     "count_true": sf_count_true,
